@@ -113,7 +113,7 @@ def run(ctx, res):
                 'after every step bytes-on-socket / unsent tail / queue length are compared with the Coq model, the stream with the '
                 'frames in put order, and select()-readability of the queue with qsize(); plus probes of the real Queue (random put/get; a 700-item backlog put by a producer thread while the consumer is not looking, '
                 'then drained only while select()-readable) and (thorough) '
-                'a threaded soak over a socketpair with a 4 KiB send buffer; and every interleaving of the primitives (superclass put/get/empty, send/recv of the wake-up byte) of a few concurrent put()/get() calls on the real Queue, threads released one primitive at a time (harness/qsched.py: five scenarios, all schedules; plus two threads calling Reactor.write() with frames up to 40 KiB, all interleavings of their outbox operations, the socket must get A+B or B+A), each judged on the real object and compared with the Coq queue model run on the same primitive trace; non-trivial = a partial send or would-block happened, or a queue schedule')
+                'a threaded soak over a socketpair with a 4 KiB send buffer; and every interleaving of the primitives (superclass put/get/empty, send/recv of the wake-up byte) of a few concurrent put()/get() calls on the real Queue, threads released one primitive at a time (harness/qsched.py: five scenarios, all schedules; plus two threads calling Reactor.write() with frames up to 40 KiB, all interleavings of their outbox operations, the socket must get A+B or B+A), each judged on the real object and compared with the Coq queue model run on the same primitive trace; plus a probe with the real run_forever on a scripted socket/select in which a protocol callback (on the reactor thread itself) writes frames after the write() of another thread had returned: one FIFO, the earlier write reaches the socket first; non-trivial = a partial send or would-block happened, or a queue schedule')
     cases = []
     if ctx.scale == 1:
         for k in range(ctx.n(5, 40)):
@@ -122,6 +122,13 @@ def run(ctx, res):
             res.count('queue_probe')
             if p:
                 res.failures.append(dict(signature='C20: ' + p.split(' but ')[0], what=p, case=dict(probe='queue', k=k)))
+        for k in range(ctx.n(40, 600)):
+            p = rd.callback_write_probe(ctx.rng('cb%d' % k))
+            res.evaluations += 1
+            res.count('callback_write_probe')
+            if p:
+                res.failures.append(dict(signature='C20: callback write order', what=p, case=dict(probe='callback', k=k)))
+                break
         for k in range(ctx.n(1, 3)):
             p = rd.queue_backlog_probe()
             res.evaluations += 1
@@ -211,6 +218,8 @@ def replay(ctx, case):
             if r['failure']:
                 return r['failure']
         return None
+    if case.get('probe') == 'callback':
+        return rd.callback_write_probe(ctx.rng('cb%d' % case['k']))
     if case.get('probe') == 'queue':
         return rd.queue_probe(ctx.rng('q%d' % case['k']))
     if case.get('probe') == 'backlog':
